@@ -51,7 +51,7 @@ def l3_scripted(ctx, T, rng, n_sessions):
                         obj.close()
             return f
         for cb in cbids + [5, 6, 7]:
-            S.cbs[(idx, cb)] = make(cb)
+            S.cbs[(idx, cb)] = S.wrap(make(cb))
         for cb in cbids:
             S.reg(idx, cb)
             if scripts[cb]:
@@ -114,14 +114,14 @@ def l3_scripted(ctx, T, rng, n_sessions):
                 if not must <= set(invoked):
                     what = f"callbacks {sorted(must - set(invoked))} stayed registered but were not invoked (invoked: {invoked})"
             if what:
-                ctx.violation(f"{c['py']} update callbacks, scripts {scripts}: {what}",
+                ctx.violation(f"{c['py']} update callbacks ({S.cb_kind} objects), scripts {scripts}: {what}",
                               {"path": "l3", "class": c["py"], "scripts": {str(k2): v for k2, v in scripts.items()}, "function": f["name"], "value": val},
                               {"kind": what.split(" ")[0][:20], "path": "l3"})
                 break
             # track registration state the way the scripts changed it
             if not r.startswith("EXC"):
                 cur = set(obj._update_callbacks) if obj._connection is not None else set()
-                registered = {cb for (i2, cb), fn in S.cbs.items() if fn in cur}
+                registered = {cb for (i2, cb) in list(S.cbs) if S._cb(i2, cb) in cur}      # resolved the way user code names the callback (a bound method is a fresh, equal object)
         model = S.finish()
         if order_free:
             for i, (op, real, m) in enumerate(zip(S.ops, S.real, model)):
